@@ -10,18 +10,24 @@ RawTypes == << <<0, 0, 0, 0>>, <<1, 0, 0, 0>>, <<11, 0, 0, 0>>, <<12, 0, 0, 0>>,
 NameIdx == <<1, 7, 11, 0>>
 \* entry i of an ELF table with entry size es: markers, a raw type from the rotation, a valid name index,
 \* and (for the string-table entry) the external address
-ElfEntryBytes(es, i, rot, isStr) ==
+BadAddr == <<0, 0, 0, 32, 0, 0, 0, 0>>             \* 0x2000_0000: nothing is mapped there
+ElfEntryBytesA(es, i, rot, isStr, addr) ==
   LET b == [j \in 1..es |-> FillB(i * 64 + j)]
       withT == IF es >= 8 THEN Override(Override(b, 0, U32Bytes(NameIdx[(i % 4) + 1])), 4, RawTypes[((i + rot) % 10) + 1]) ELSE b IN
   IF ~isStr THEN withT
-  ELSE IF es = 40 THEN Override(withT, 12, SubSeq(ExtAddr, 1, 4))
-  ELSE IF es = 64 THEN Override(withT, 16, ExtAddr) ELSE withT
+  ELSE IF es = 40 THEN Override(withT, 12, SubSeq(addr, 1, 4))
+  ELSE IF es = 64 THEN Override(withT, 16, addr) ELSE withT
+ElfEntryBytes(es, i, rot, isStr) == ElfEntryBytesA(es, i, rot, isStr, ExtAddr)
 ElfParamsSet ==
-  UNION { { [n |-> n, es |-> es, shndx |-> sh, slen |-> sl, rot |-> rot, atEnd |-> lst]
+  UNION { { [n |-> n, es |-> es, shndx |-> sh, slen |-> sl, rot |-> rot, atEnd |-> lst, strbad |-> FALSE]
             : sh \in 0..(n + 1), sl \in {0, Max(es * n, 1) - 1, es * n, es * n + 8}, rot \in ElfRots, lst \in BOOLEAN }
           : n \in 0..MaxN, es \in ElfSizes }
+  \* strbad: the string table the tag designates lies at an unmapped address.  Iterating, counting and Debug formatting
+  \* never resolve a name - only an explicit name() call goes to the external address (C01's one exception)
+  \cup UNION { { [n |-> n, es |-> es, shndx |-> sh, slen |-> es * n, rot |-> rot, atEnd |-> FALSE, strbad |-> TRUE]
+                : sh \in 0..(n - 1), rot \in ElfRots } : n \in 1..MaxN, es \in {40, 64} }
 ElfTag(p) ==
-  LET body == Concat([i \in 1..p.n |-> ElfEntryBytes(p.es, i - 1, p.rot, i - 1 = p.shndx)])
+  LET body == Concat([i \in 1..p.n |-> ElfEntryBytesA(p.es, i - 1, p.rot, i - 1 = p.shndx, IF p.strbad THEN BadAddr ELSE ExtAddr)])
       sec == [j \in 1..p.slen |-> IF j <= Len(body) THEN body[j] ELSE FillA(j)] IN
   U32Bytes(9) \o U32Bytes(20 + p.slen) \o U32Bytes(p.n) \o U32Bytes(p.es) \o U32Bytes(p.shndx) \o sec
 ElfNamesOk(p) == p.es \in {40, 64} /\ p.shndx < p.n /\ p.es * p.n <= p.slen
@@ -33,7 +39,7 @@ ElfCase(p) ==
    ext |-> [addr |-> ExtAddr, data |-> ExtData],
    calls |-> <<[op |-> "load"], [op |-> "field", kind |-> "elf", f |-> "number_of_sections"],
                [op |-> "elf_sections", it |-> 0]>>
-             \o [i \in 1..(p.n + 2) |-> [op |-> "next", it |-> 0, names |-> ElfNamesOk(p) \/ ElfNoFit(p)]]
+             \o [i \in 1..(p.n + 2) |-> [op |-> "next", it |-> 0, names |-> ~p.strbad /\ (ElfNamesOk(p) \/ ElfNoFit(p))]]
              \o <<[op |-> "count", it |-> 0], [op |-> "last", it |-> 0], [op |-> "elf_sections", it |-> 2], [op |-> "count", it |-> 2],
                   [op |-> "last", it |-> 2], [op |-> "nth", it |-> 2, n |-> 1], [op |-> "next", it |-> 2, names |-> FALSE]>>
              \o <<[op |-> "elf_sections_deprecated", it |-> 1], [op |-> "next", it |-> 1, names |-> FALSE],
